@@ -278,6 +278,13 @@ class Gen:
             lambda: "(def(%s, %s) -> [%s(), %s(), %s(%s), %s()])" % (f, self.tk(i()), f, f, f, i(), f),
             lambda: "(let(%s => %s) -> def(%s, %s + $%s) -> def(%s, %s() + %s()) -> [%s(), %s(), %s()])" % (x, i(), f, self.tk(i()), x, g, f, f, g, f, g),
             lambda: "%s.select(def(%s, %s) -> %s() + %s()).toList()" % (self.list_lit(env, 1), f, self.tk("$"), f, f),
+            # a lazy sequence handed on by a binding form stays lazy: only what the continuation consumes is evaluated
+            lambda: "(let(%s => %s.select(%s)) -> $%s.first(0))" % (x, self.list_lit(env, 1, minlen=2), self.tk("$ + 1"), x),
+            lambda: "(let(%s => %s.select(%s).where(%s)) -> $%s.any($ > %s))" % (x, self.list_lit(env, 1, minlen=2), self.tk("$ * 2"), self.tk("$ > 0"), x, i()),
+            lambda: "(with(%s.where(%s)) -> $1.first(0))" % (self.list_lit(env, 1, minlen=2), self.tk("$ >= 0")),
+            lambda: "(def(%s, $1.first(0)) -> %s(%s.select(%s)))" % (f, f, self.list_lit(env, 1, minlen=2), self.tk("$ + 1")),
+            lambda: "(let(%s => %s.select(%s)) -> let(%s => $%s.where(%s)) -> $%s.first(0))" % (x, self.list_lit(env, 1, minlen=2), self.tk("$"), y, x, self.tk("$ > 1"), y),
+            lambda: "(let(%s => %s.select(%s)) -> $%s.select(%s).first(0))" % (x, self.list_lit(env, 1, minlen=2), self.tk("$ + 1"), x, self.tk("$ * 3")),
             # null bindings shadow outer non-null ones
             lambda: "(let(%s => %s) -> let(%s => null) -> [$%s, $%s = null])" % (x, i(), x, x, x),
             lambda: "[null, %s, null].select([$, $ = null])" % i(),
